@@ -84,6 +84,7 @@ def dfa_text(R, rng, plain=False):
 def ill_formed_automaton_texts(text, rng):
     lines = text.rstrip('\n').split('\n')
     out = [('no_initial', '\n'.join(l for l in lines if not l.strip().startswith('initial'))),
+           ('invalid_symbol_in_declaration', '\n'.join((l + ' b-c') if l.strip().startswith('input_symbols') else l for l in lines) + '\n'),
            ('two_initial_lines', text + 'initial zz1\n'),
            ('incomplete_transition', text + 'zz1 zz2\n'),
            ('empty_text', '')]
@@ -99,8 +100,8 @@ def fam_language_from_words(rec, rng):
         R = exercises.ref_dfa(rng, 4, rng.choice(['ab', 'a']))
         Lref = set(fa.language_upto(R, n))
         m = rng.choice([0, 0, len(R[0]), len(R[0]) + 1])
-        answers = [('reference', R)] + mut.fa_mutants(R, rng)
-        words = exercises.wl(Lref)
+        answers = [('reference', R)] + mut.fa_mutants(R, rng, extra_word_len=n)
+        words = exercises.wl(Lref, rng)
         for (nm, A) in answers:
             ok_struct = fa.well_formed(A) and fa.is_total_dfa(A)
             LA = set(fa.language_upto(A, n)) if ok_struct else set()
@@ -118,8 +119,8 @@ def fam_language_from_words(rec, rng):
         eps = rng.choice(['_', 'ε'])
         Lref = set(fa.language_upto(R, n))
         m = rng.choice([0, 0, len(R[0]), len(R[0]) + 1])
-        words = exercises.wl(Lref)
-        for (nm, A) in [('reference', R)] + mut.fa_mutants(R, rng, nfa=True):
+        words = exercises.wl(Lref, rng)
+        for (nm, A) in [('reference', R)] + mut.fa_mutants(R, rng, nfa=True, extra_word_len=n):
             LA = set(fa.language_upto(A, n))
             right = LA == Lref and (m == 0 or len(A[0]) <= m)
             text = nfa_text(A, eps, rng)
@@ -132,7 +133,7 @@ def fam_language_from_words(rec, rng):
     elif kind == 'cfg':
         RG = exercises.nondegenerate_grammar(rng, 3, 6, 3)
         Lref = set(cf.language_upto(RG, n))
-        words = exercises.wl(Lref)
+        words = exercises.wl(Lref, rng)
         for (nm, A) in [('reference', RG)] + mut.cfg_mutants(RG, rng, 6):
             if {x for (x, _) in A[2]} != set(A[0]) or not A[2] or A[2][0][0] != A[3]:
                 continue          # not expressible in the simple format
@@ -149,7 +150,7 @@ def fam_language_from_words(rec, rng):
         while rx.size_iter(t) > 12:
             t = rxg.random_tree(rng, rng.randint(1, 3), 'ab')
         Lref = set(rx.denot(t, n))
-        words = exercises.wl(Lref)
+        words = exercises.wl(Lref, rng)
         for (nm, A) in [('reference', t)] + mut.rx_mutants(t, rng, limit=6):
             LA = set(rx.denot(A, n))
             text = txt.render_regexp_simple(A)
@@ -164,7 +165,7 @@ def fam_language_from_words(rec, rng):
         RP = exercises.tame_pda(rng)
         eps = rng.choice(['_', 'ε'])
         Lref = set(pd.language_upto(RP, n))
-        words = exercises.wl(Lref)
+        words = exercises.wl(Lref, rng)
         m = rng.choice([0, len(RP[0])])
         for (nm, A) in [('reference', RP)] + mut.pda_mutants(RP, rng, 6):
             tame = all(pd.true_eps_closure(A, [(q, st)], 30)[1] for q in A[0] for st in ((), ('X',)))
@@ -184,7 +185,7 @@ def fam_language_from_words(rec, rng):
         def L(T):
             return {w for w in fa.words_upto(T[1], n) if tmr.run(T, w, 1000)[0] is True}
         Lref = L(RT)
-        words = exercises.wl(Lref)
+        words = exercises.wl(Lref, rng)
         m = rng.choice([0, len(RT[0])])
         for (nm, A) in [('reference', RT)] + mut.tm_mutants(RT, rng, 6):
             if not tmr.well_formed(A):
@@ -216,7 +217,7 @@ def fam_language_from_file(rec, rng, tmpdir):
         R = exercises.ref_dfa(rng, 4, 'ab')
         path = write('dfa', dfa_text(R, rng))
         Lref = set(fa.language_upto(R, n))
-        for (nm, A) in [('reference', R)] + mut.fa_mutants(R, rng):
+        for (nm, A) in [('reference', R)] + mut.fa_mutants(R, rng, extra_word_len=n):
             ok_struct = fa.well_formed(A) and fa.is_total_dfa(A)
             LA = set(fa.language_upto(A, n)) if ok_struct else set()
             text = dfa_text(A, rng)
@@ -228,7 +229,7 @@ def fam_language_from_file(rec, rng, tmpdir):
         eps = rng.choice(['_', 'ε'])
         path = write('nfa', nfa_text(R, eps, rng))
         Lref = set(fa.language_upto(R, n))
-        for (nm, A) in [('reference', R)] + mut.fa_mutants(R, rng, nfa=True):
+        for (nm, A) in [('reference', R)] + mut.fa_mutants(R, rng, nfa=True, extra_word_len=n):
             LA = set(fa.language_upto(A, n))
             text = nfa_text(A, eps, rng)
             pok, out, o = run_checker(nb.check_nfa_language_from_file, text, path, n)
@@ -269,7 +270,7 @@ def fam_accepts_rejects(rec, rng):
         allw = list(fa.words_upto(RG[1], n))
         acc = rng.sample(sorted(Lref), min(len(Lref), 5))
         rej = rng.sample([w for w in allw if w not in Lref], min(5, len(allw) - len(Lref)))
-        sa, sr = exercises.wl(acc), exercises.wl(rej)
+        sa, sr = exercises.wl(acc, rng), exercises.wl(rej, rng)
         for (nm, A) in [('reference', RG)] + mut.cfg_mutants(RG, rng, 8):
             if {x for (x, _) in A[2]} != set(A[0]) or not A[2] or A[2][0][0] != A[3]:
                 continue
@@ -285,7 +286,7 @@ def fam_accepts_rejects(rec, rng):
         allw = list(fa.words_upto(R[1], n))
         acc = rng.sample(sorted(Lref), min(len(Lref), 5))
         rej = rng.sample([w for w in allw if w not in Lref], min(5, len(allw) - len(Lref)))
-        sa, sr = exercises.wl(acc), exercises.wl(rej)
+        sa, sr = exercises.wl(acc, rng), exercises.wl(rej, rng)
         for (nm, A) in [('reference', R)] + mut.fa_mutants(R, rng):
             if not (fa.well_formed(A) and fa.is_total_dfa(A)):
                 continue
